@@ -466,8 +466,13 @@ struct Exec {
 }
 
 fn execute(case: &Case, ex: &mut Explorer, max_calls: usize, all_shorts: bool) -> Exec {
-    let mut t = Target::new(case.target);
-    let before = t.contents();
+    execute_seq(std::slice::from_ref(case), ex, max_calls, all_shorts)
+}
+
+/// Runs the transfers of `cases` one after the other on the same target and the same scripted
+/// stream (the stream's script and its byte position carry over); every transfer is judged.
+fn execute_seq(cases: &[Case], ex: &mut Explorer, max_calls: usize, all_shorts: bool) -> Exec {
+    let mut t = Target::new(cases[0].target);
     let st = Rc::new(RefCell::new(ScriptState {
         ex: ex as *mut Explorer,
         calls: Vec::new(),
@@ -477,6 +482,13 @@ fn execute(case: &Case, ex: &mut Explorer, max_calls: usize, all_shorts: bool) -
         consumed: 0,
         accepted: Vec::new(),
     }));
+    let mut last: Option<Exec> = None;
+    for case in cases {
+    let before = t.contents();
+    let (calls_before, consumed_before, accepted_before) = {
+        let s = st.borrow();
+        (s.calls.len(), s.consumed, s.accepted.len())
+    };
     let result: Res = match case.stream {
         StreamKind::Scripted => {
             let mut s = Scripted(st.clone());
@@ -516,7 +528,7 @@ fn execute(case: &Case, ex: &mut Explorer, max_calls: usize, all_shorts: bool) -
     };
     let after = t.contents();
     let st = st.borrow();
-    let calls = st.calls.clone();
+    let calls: Vec<(usize, Ans)> = st.calls[calls_before..].to_vec();
     let mut violation: Option<(String, String)> = None;
     let mut fail = |k: &str, d: String| {
         if violation.is_none() {
@@ -584,7 +596,7 @@ fn execute(case: &Case, ex: &mut Explorer, max_calls: usize, all_shorts: bool) -
         let mut expect = before.clone();
         for i in 0..moved {
             if case.off + i < expect.len() {
-                expect[case.off + i] = stream_byte(i);
+                expect[case.off + i] = stream_byte(consumed_before + i);
             }
         }
         if after != expect {
@@ -592,9 +604,10 @@ fn execute(case: &Case, ex: &mut Explorer, max_calls: usize, all_shorts: bool) -
         }
     } else {
         // 4'. every byte handed to the writer is the next guest byte in order; memory unchanged
-        let want: Vec<u8> = before.iter().skip(case.off).take(st.accepted.len()).cloned().collect();
-        if st.accepted != want || st.accepted.len() != moved {
-            fail("bytes-lost-or-duplicated", format!("writer accepted {} but the guest bytes in order are {}", hex(&st.accepted), hex(&want)));
+        let accepted_now: Vec<u8> = st.accepted[accepted_before..].to_vec();
+        let want: Vec<u8> = before.iter().skip(case.off).take(accepted_now.len()).cloned().collect();
+        if accepted_now != want || accepted_now.len() != moved {
+            fail("bytes-lost-or-duplicated", format!("writer accepted {} but the guest bytes in order are {}", hex(&accepted_now), hex(&want)));
         }
         if after != before {
             fail("memory-changed-by-write-out", format!("guest memory changed from {} to {}", hex(&before), hex(&after)));
@@ -634,12 +647,18 @@ fn execute(case: &Case, ex: &mut Explorer, max_calls: usize, all_shorts: bool) -
         (Ok(x), exact) => fail("malformed-result", format!("{:?} for exact={}", x, exact)),
     }
     drop(st);
-    Exec {
+    let failed = violation.is_some();
+    last = Some(Exec {
         calls,
         result,
         violation,
         after,
+    });
+    if failed {
+        break;
     }
+    }
+    last.unwrap()
 }
 
 fn cases(tier: Tier) -> Vec<Case> {
@@ -747,6 +766,29 @@ pub fn run(tier: Tier, replay: Option<String>) -> i32 {
             }
         }
     }
+    // histories: two transfers in a row on the same target and stream (state carried over)
+    let mut pair_scripts = 0u64;
+    for target in [TargetKind::Slice, TargetKind::Region, TargetKind::Memory] {
+        for stream in [StreamKind::Scripted, StreamKind::File] {
+            for (f1, f2) in [(Form::ReadUpTo, Form::ReadExact), (Form::ReadExact, Form::ReadUpTo), (Form::WriteUpTo, Form::WriteAll), (Form::ReadUpTo, Form::WriteAll), (Form::TraitReadExact, Form::ReadExact), (Form::WriteAll, Form::ReadUpTo)] {
+                for (o1, c1, o2, c2) in [(0usize, 5usize, 5usize, 8usize), (3, 8, 0, 5), (6, 5, 2, 9)] {
+                    let pair = [Case { target, stream, form: f1, off: o1, count: c1 }, Case { target, stream, form: f2, off: o2, count: c2 }];
+                    let stats = explore_seq(Some(2), |ex| {
+                        let e = execute_seq(&pair, ex, max_calls, false);
+                        ctx.case(true);
+                        if let Some((k, d)) = e.violation {
+                            let key = format!("C14/{:?}/{:?}/history-{}-then-{}/{}", target, stream, f1.name(), f2.name(), k);
+                            ctx.fail(&key, &d, json!({"history": [pair[0].to_json(), pair[1].to_json()], "choices": ex.current_choices(), "max_calls": max_calls}));
+                            return false;
+                        }
+                        true
+                    });
+                    pair_scripts += stats.executions;
+                }
+            }
+        }
+    }
+    ctx.extra("two_transfer_history_scripts", json!(pair_scripts));
     ctx.set_exhaustive(true);
     ctx.extra("cases", json!(all.len()));
     ctx.extra("scripts_executed_including_re-exploration_per_bound", json!(per_bound));
